@@ -97,15 +97,19 @@ def _run_case(case):
         arr = np.array(case["field"], dtype=float).reshape(gs.data_shape)
         if case["masked"]:
             arr = np.ma.masked_array(arr, mask=(arr.astype(int) % 3 == 0))
-        out, inp = fm.Output(name="Out"), fm.Input(name="In")
+        static = bool(case.get("st"))
+        t0 = None if static else day(0)
+        out, inp = fm.Output(name="Out", static=static), fm.Input(name="In", static=static)
         out >> inp  # pylint: disable=pointless-statement
         inp.ping()
         obs = {"res": "ok", "shape": [], "field": [], "mask": []}
         try:
-            out.push_info(fm.Info(time=day(0), grid=gs, units="m"))
-            inp.exchange_info(fm.Info(time=day(0), grid=gd, units="m"))
-            out.push_data(arr, day(0))
+            out.push_info(fm.Info(time=t0, grid=gs, units="m"))
+            inp.exchange_info(fm.Info(time=t0, grid=gd, units="m"))
+            out.push_data(arr, t0)
             data = fm.data.get_magnitude(inp.pull_data(day(0)))
+            if static:
+                data = fm.data.get_magnitude(inp.pull_data(day(2)))
             obs["shape"] = list(map(int, data.shape))
             obs["field"] = [int(round(float(x))) for x in np.ma.getdata(data).ravel()]
             obs["mask"] = [bool(x) for x in np.ma.getmaskarray(data).ravel()]
